@@ -4,7 +4,11 @@ were overwritten with in-window garbage before the reset; caller-provided (stati
 tiny random output capacities; 2..4 workers vs 1 worker (also under perturbed timing through different chunkings)}.
 Two directed families through harness/zvh_det.c (op px): frames compressed WITH A DICTIONARY (every supply mode x attach / copy / load x fast levels
 x sizes around the cut-offs) on contexts whose history keeps the table indices running, and OPTIMAL-PARSER levels on short-match-dense inputs over
-contexts whose memory held different bytes before (pre-filled static buffers, filling malloc, overwritten scratch tables, deeper prior frames)."""
+contexts whose memory held different bytes before (pre-filled static buffers, filling malloc, overwritten scratch tables, deeper prior frames).
+Three more directed families: BUFFER PLACEMENT (harness/zvh_place.c: dictionary / prefix and input, or the segments of a buffer-less frame, laid out in one
+arena adjacent-after / adjacent-before / one byte apart / far / on dead memory - never overlapping live history, same contiguity pattern), END WITH A LARGE
+INPUT AFTER THE INTERNAL BUFFER WAS DRAINED (flush or exactly filled blocks, then >= 1 block with ZSTD_e_end: roomy vs piecewise output; the recorded
+known finding only covers an EMPTY internal buffer), and the same histories through the Lean model of the streaming buffer machine (tools/ent_cstream.py)."""
 import build, zv, frames
 
 ASSUMPTIONS = ["'for all prior histories' is established for the explored histories only; the mechanism (stale indices fall below the new lowLimit, job cuts depend on byte counts only) is what Props/C07.lean proves",
@@ -104,6 +108,148 @@ def opt_memory_lines(rng, quick):
     return out
 
 
+def hx3():
+    return build.link("zvh_place", ["zvh_place.c"], "plain")
+
+
+def hx4():
+    return build.link("zvh_endroom", ["zvh_endroom.c"], "plain", exclude=("zstd_compress.c",))
+
+
+def cbound(n):
+    return n + (n >> 8) + (((131072 - n) >> 11) if n < 131072 else 0)
+
+
+def drained_end_lines(rng, quick):
+    """family 3 (harness/zvh_endroom.c, op er; directed): the internal input buffer holds already-compressed data only (a flush, or input that filled whole blocks
+    exactly), then the rest of the input - at least one block, at least 8 KB - arrives together with ZSTD_e_end; roomy output vs 1..4000-byte pieces.
+    Nothing is pending and the buffer is not empty: the emitted bytes may not depend on the room (the known finding is about an EMPTY buffer)."""
+    out = []
+    lvls = [1, 3, 5, 2, 7, 4, 9, 6, 13, 1, 16, 3]
+    for i in range(24 if quick else 240):
+        lv = lvls[i % len(lvls)]
+        p = {100: lv}
+        shape = i % 4
+        if shape == 0:                       # default block size, flushed partial block
+            blk = 131072; a = rng.choice([1, 700, 20000, 100000]); b = rng.choice([131072, 200000, 262144 + 5]); dirs = "fe"
+        elif shape == 1:                     # small blocks (maxBlockSize), flushed partial block
+            blk = rng.choice([4096, 8192, 16384]); p[1015] = blk; a = rng.randrange(1, blk); b = blk * rng.choice([2, 3, 5]) + rng.choice([0, 1, 1808]); dirs = "fe"
+        elif shape == 2:                     # small window: block = window, whole blocks filled by continue calls
+            wl = rng.choice([13, 14, 15]); blk = 1 << wl; p[101] = wl; a = blk; b = blk * rng.choice([1, 2, 3]) + rng.choice([0, 100]); dirs = "ce"
+        else:                                # small blocks, whole blocks filled by continue calls
+            blk = rng.choice([8192, 16384, 65536]); p[1015] = blk; a = blk * rng.choice([1, 2]); b = blk * rng.choice([1, 2, 4]) + rng.choice([0, 33]); dirs = "ce"
+        if lv >= 13: b = min(b, 150000)
+        if i % 5 == 0: p[201] = 1
+        out.append("er %s %d %d %d,%d %s %d" % (frames.pstr(p), a + b, rng.randrange(1 << 30), a, b, dirs, rng.randrange(1 << 30)))
+    # undirected histories of the same kind (several input calls, the last bytes travel with e_end): here the harness can tell the documented shortcut from anything else
+    for i in range(40 if quick else 600):
+        p = {100: rng.choice([1, 2, 3, 4, 5, 6, 7, 9])}
+        if rng.random() < 0.5: p[101] = rng.choice([12, 14, 16, 17, 18])
+        if rng.random() < 0.3: p[1015] = rng.choice([1024, 4096, 65536])
+        if rng.random() < 0.2: p[201] = 1
+        n = rng.choice([1000, 40000, 150000, 300000])
+        ins = ",".join(str(rng.choice([1, 700, 5000, 16384, 65536, 131072, 200000])) for _ in range(rng.randint(1, 3)))
+        out.append("er %s %d %d %s %s %d" % (frames.pstr(p), n, rng.randrange(1 << 30), ins, "".join(rng.choice("cccfe") for _ in range(rng.randint(1, 4))), rng.randrange(1 << 30)))
+    return out
+
+
+def drained_end_model_ops(rng, quick):
+    """the same histories (and the room of the final call at / around ZSTD_compressBound(final input)) through the differential tie with the Lean model of
+    ZSTD_compressStream_generic (Model/CStream.lean: direct compression into dst only when the internal buffer is empty): chunk by chunk, call by call"""
+    ops = []
+    lvls = [1, 3, 5, 7, 9, 13, 16, 2, 4]
+    for i in range(36 if quick else 400):
+        wl = [12, 13, 14, 15, 16, 17][i % 6]
+        p = {100: lvls[i % len(lvls)], 101: wl}
+        if i % 3 == 1: p[1015] = [1024, 4096, 65536][(i // 3) % 3]
+        if i % 7 == 3: p[201] = 1
+        if i % 11 == 5: p[9000] = 1
+        blk = min(1 << wl, p.get(1015, 131072), 131072)
+        if i % 2 == 0:
+            a = rng.randrange(1, blk); d = rng.choice(["fE", "fE", "cfE"]) if blk > 1 else "fE"
+            ins = [a] if d == "fE" else [a // 2 + 1, a - a // 2 - 1 or 1]
+        else:
+            a = blk * rng.choice([1, 1, 2]); d = rng.choice(["CE", "cE"]); ins = [a]
+        b = blk * rng.choice([1, 2, 3]) + rng.choice([0, 1, 777])
+        if p[100] >= 13: b = min(b, 100000)
+        n = sum(ins) + b
+        room = [n + n // 128 + 4096, cbound(b), cbound(b) - 1, cbound(b) + 1, 700][(i // 2) % 5]
+        outs = [n + n // 128 + 4096] * len(ins) + [room]
+        ops.append("cs %s %d %d %s %s %s" % (frames.pstr(p), n, rng.randrange(1 << 30), ",".join(map(str, ins + [b])), ",".join(map(str, outs)), d))
+    return ops
+
+
+PLACE_COMBOS = [("x", "2"), ("x", "e"), ("x", "s"), ("x", "2"), ("L", "2"), ("R", "2"), ("x", "k"), ("L", "e"), ("R", "e"), ("b", "-"), ("x", "2"), ("a", "-"), ("L", "s")]
+PLACE_LEVELS = [1, 2, 3, 4, 5, 6, 7, 9, 12, 13, 16, 19]
+
+
+def placement_lines(rng, quick):
+    """family 4: where the caller's buffers lie.  pd: (dictionary | prefix, input) in one arena - input exactly after / exactly before / one byte away from /
+    far from the dictionary, every way of handing over a dictionary whose CONTENT STAYS IN THE CALLER'S BUFFER (prefix, by-reference dictionary, by-reference
+    CDict, compressBegin_usingDict, compress_usingDict), every strategy class; the adjacent-after placement is compared when contiguity was switched off
+    (ZSTD_c_deterministicRefPrefix) and the content is loaded from the caller's buffer.  ps: buffer-less frames (compressBegin / Continue / End) whose
+    non-contiguous segments go to different places of the arena, incl. exactly at the end / start of memory that is no longer part of the history."""
+    out = []
+    dsizes = [8, 12, 100, 1000, 4096, 30000, 100000]
+    nsizes = [500, 5000, 20000, 60000, 140000, 200000]
+    for k in range(78 if quick else 780):
+        sup, api = PLACE_COMBOS[k % len(PLACE_COMBOS)]
+        lv = PLACE_LEVELS[k % len(PLACE_LEVELS)] if k % 17 else -1
+        p = {100: lv}
+        if k % 6 != 5: p[1012] = 1
+        if sup in "LR": p[1001] = 3 if k % 5 else [0, 1, 2][(k // 5) % 3]
+        if k % 9 == 4: p[201] = 1
+        if k % 10 == 7 and lv < 13: p[160] = 1
+        dn = dsizes[(k * 5 + 1) % 7]; n = nsizes[(k * 3 + k // 6) % 6]
+        if lv >= 13: n = min(n, 20000 if lv >= 16 else 60000)
+        out.append("pd %s %s %s %d %d %d" % (sup, api, frames.pstr(p), dn, n, rng.randrange(1 << 30)))
+    # the recorded design dependence (known finding C07-input-exactly-behind-by-reference-dictionary): the adjacent-after placement forced into the comparison
+    out += ["pd L 2 100=3,1012=1,1001=2,9999=1 30000 160000 9", "pd R 2 100=3,1012=1,1001=2,9999=1 30000 160000 10", "pd a - 100=3,9999=1 30000 300000 9"]
+    lens = [1, 7, 100, 1000, 5000, 20000, 50000, 131077]
+    for k in range(30 if quick else 300):
+        lv = PLACE_LEVELS[(k * 5) % len(PLACE_LEVELS)] if k % 13 else -3
+        ns = 3 + k % 6
+        ls = [lens[(k + 3 * j + rng.randrange(3)) % len(lens)] for j in range(ns)]
+        if lv >= 13: ls = [min(x, 20000) for x in ls]
+        pat = "".join("n" if (j == k % (ns - 1) or rng.random() < 0.7) else "c" for j in range(ns - 1))
+        out.append("ps %d %d %s %s %d" % (lv, [0, 17, 0, 14, 0, 20][k % 6], pat, ",".join(map(str, ls)), rng.randrange(1 << 30)))
+    return out
+
+
+def window_update_ops(rng, quick):
+    """function level: ZSTD_window_update against Model/WindowUpdate.lean on sequences of segments placed contiguously (with and without the forced split),
+    far away, exactly before / exactly behind the current run or the external dictionary, one byte off, overlapping them from either side (ring reuse), tiny and
+    empty - the limits and the contiguity answer after every segment"""
+    ops = []
+    for i in range(400 if quick else 6000):
+        b0 = (1 << 32) + rng.randrange(1 << 20)
+        c0 = c1 = b0 + 2; p0 = p1 = b0
+        segs = []
+        for j in range(rng.randint(1, 9)):
+            n = rng.choice([0, 1, 7, 8, 9, 100, 1000, 65536, 131072, rng.randrange(1, 300000)])
+            kind = rng.randrange(14)
+            force = 1 if rng.random() < 0.3 else 0
+            if kind < 3: ip = c1
+            elif kind == 3: ip = c1; force = 1
+            elif kind == 4: ip = c1 + rng.choice([1, 7, 8])
+            elif kind == 5: ip = c0 - n
+            elif kind == 6: ip = c0 - n - rng.choice([1, 8])
+            elif kind == 7: ip = c0 + rng.randrange(0, max(1, c1 - c0))              # over the current run
+            elif kind == 8: ip = p1                                                   # exactly behind the older run
+            elif kind == 9: ip = p0 - n                                               # exactly before it
+            elif kind == 10: ip = p0 + rng.randrange(-n, max(1, p1 - p0) + 1) if n else p0   # overlapping it from either side
+            elif kind == 11: ip = p1 - rng.choice([1, 7, 8, 9])
+            elif kind == 12: ip = c1 - rng.choice([1, 8, 100])
+            else: ip = (1 << 32) + rng.randrange(1 << 31)
+            ip = max(ip, 1 << 31)
+            segs.append("%d:%d:%d" % (ip, n, force))
+            if n:
+                if ip != c1 or force: p0, p1, c0, c1 = c0, c1, ip, ip + n
+                else: c1 += n
+        ops.append("wupd %d %s" % (b0, ",".join(segs)))
+    return ops
+
+
 def correspondence(ctx):
     rng = ctx.rng
     exe = hx()
@@ -149,14 +295,26 @@ def correspondence(ctx):
             p = {100: rng.choice([1, 1, 3]), 160: 1, 101: wl, 401: rng.choice([2097152, 1048576]), 164: rng.choice([9, 8, 7]), 402: rng.choice([0, 3, 6, 9])}
             w = rng.choice([3, 4, 6]); size = rng.choice([64000000, 48000000])
         lines.append("det w%d %s %d %d %s c 0 %d" % (w, frames.pstr(p), size, rng.randrange(1 << 29) * 2 + 1, rng.choice(["1000000", "3000000,500000"]), rng.randrange(1 << 30)))
+    import random
+    rng2 = random.Random(ctx.seed * 7919 + 7)          # the added families draw from their own stream: the families above see the same sequence as before
     n_det = len(lines)
     lines += dict_history_lines(rng, ctx.quick())
     n_dict = len(lines) - n_det
     lines += opt_memory_lines(rng, ctx.quick())
+    n_px = len(lines)
+    lines += placement_lines(rng2, ctx.quick())
+    n_pl = len(lines)
+    lines += drained_end_lines(rng2, ctx.quick())
     exe2 = hx2()
+    exe3 = hx3()
+    exe4 = hx4()
     def run(chunk):
         if chunk and chunk[0].startswith("px "):
             rc, out, err = frames.run_lines(exe2, chunk, timeout=3000)
+        elif chunk and chunk[0].startswith(("pd ", "ps ")):
+            rc, out, err = frames.run_lines(exe3, chunk, timeout=3000)
+        elif chunk and chunk[0].startswith("er "):
+            rc, out, err = frames.run_lines(exe4, chunk, timeout=3000)
         else:
             rc, out, err = frames.run_lines(exe, chunk, timeout=3000)
         if rc != 0 or len(out) != len(chunk):
@@ -164,7 +322,7 @@ def correspondence(ctx):
             ctx.violation("library crashed in a determinism scenario (exit %d): %s" % (rc, bad[:150]), dict(kind="monitor", op=bad, stderr=err[-1500:]))
             out = out + ["skip crashed"] * (len(chunk) - len(out))
         return out
-    res = frames.parallel(run, frames.split_chunks(lines[:n_det], 16) + frames.split_chunks(lines[n_det:], 16))
+    res = frames.parallel(run, frames.split_chunks(lines[:n_det], 16) + frames.split_chunks(lines[n_det:n_px], 16) + frames.split_chunks(lines[n_px:n_pl], 8) + frames.split_chunks(lines[n_pl:], 8))
     kinds, skipped = {}, 0
     if len(res) != len(lines):
         ctx.violation("determinism harness crashed / lost output lines (%d of %d)" % (len(res), len(lines)), dict(kind="monitor"), no_input=True)
@@ -173,6 +331,10 @@ def correspondence(ctx):
         if ln.startswith("px "):
             w = ln.split()
             v = "px-opt" if w[7].split(":")[0] in ("sm", "rec") or (w[3] == "n") else "px-dict"
+        elif ln.startswith(("pd ", "ps ")):
+            v = "place-" + ln[:2]
+        elif ln.startswith("er "):
+            v = "endroom"
         kinds[v] = kinds.get(v, 0) + 1
         if r.startswith("same"):
             continue
@@ -184,13 +346,46 @@ def correspondence(ctx):
         key = None
         if v == "outcapE" and r.startswith("DIFF"):
             key = "C07-end-with-input-shortcut-depends-on-output-capacity"      # input delivered together with ZSTD_e_end
-        if ln.startswith("px "):
+        if v == "place-pd" and "9999=1" in ln and r.startswith("DIFF placement A:"):
+            # input lying exactly behind a dictionary handed over by reference is taken as a contiguous continuation of it (only this placement, only when forced
+            # into the comparison: every other placement difference, and this one where contiguity is switched off and honoured, stays a violation)
+            key = "C07-input-exactly-behind-by-reference-dictionary"
+        if v == "endroom":
+            # the known finding is the direct compression of the caller's input under e_end while the internal input buffer is EMPTY (d0); anything else is not covered by it
+            if r.startswith("DIFF") and r.endswith("dn=0") and " d0=0 " not in r:
+                key = "C07-end-with-input-shortcut-depends-on-output-capacity"
+            ctx.violation("output depends on the room offered by the output buffers: %s -> %s" % (ln, r), dict(kind="monitor", op=ln, result=r), key=key)
+        elif v.startswith("place-"):
+            ctx.violation("output depends on where the caller's buffers lie: %s -> %s" % (ln, r), dict(kind="monitor", op=ln, result=r), key=key)
+        elif ln.startswith("px "):
             ctx.violation("output depends on more than (input, parameters, dictionary, calls): context '%s' with history '%s', dictionary supply '%s', api '%s', parameters %s, dictionary %s, input %s -> %s"
                           % (w[1], w[2], w[3], w[4], w[5], w[6], w[7], r), dict(kind="monitor", op=ln, result=r), key=key)
         else:
             ctx.violation("output depends on more than (input, parameters, dictionary, calls): variant '%s' -> %s" % (v, r), dict(kind="monitor", op=ln, result=r), key=key)
         if len(ctx.violations) >= 6:
             break
+    # the streaming buffer machine against its Lean model on the drained-buffer histories (which chunk is compressed from where, in which call)
+    import ent_cstream
+    cs_ops = drained_end_model_ops(rng2, ctx.quick())
+    bad, cl, ml = ent_cstream.compare(cs_ops, chunks=8)
+    for desc, data in bad[:4]:
+        data = dict(data); data["tie"] = "cstream"
+        ctx.violation(desc, data)
+    lines = lines + cs_ops
+    kinds["cstream-model"] = len(cs_ops)
+    # ZSTD_window_update against its Lean model (the theorems of Props/C07.lean section 3 are about that model)
+    wu = window_update_ops(rng2, ctx.quick())
+    cw, mw, crc, cerr = zv.differential(exe, "windowupd", wu, timeout=600)
+    nbad = 0
+    for ln, a, b in zip(wu, cw + ["<missing>"] * len(wu), mw + ["<missing>"] * len(wu)):
+        if a != b:
+            k = zv.first_diff(a.split(), b.split())
+            ctx.violation("ZSTD_window_update and its model disagree at segment %s of '%s': implementation %s, model %s (c<contiguous>/base/dictBase/nextSrc/lowLimit/dictLimit)"
+                          % (k, ln, (a.split() + ["<end>"])[k or 0], (b.split() + ["<end>"])[k or 0]), dict(kind="tie", tie="windowupd", op=ln, impl=a, model=b))
+            nbad += 1
+            if nbad >= 3: break
+    lines = lines + wu
+    kinds["window-update-model"] = len(wu)
     return dict(evaluations=len(lines), distinct_nontrivial=len(set(lines)),
                 rule="pairs (fresh heap context, roomy output) vs variant, same input cut at the same places with the same directives: prior histories (1-4 random frames incl. too-small-destination failures and aborted streams, "
                      "other parameters / dictionaries, then reset), poisoned match tables (hash / chain / 3-byte hash filled with random in-window indices before the reset), static context of exactly the estimated size, "
@@ -200,10 +395,19 @@ def correspondence(ctx):
                      "sizes on both sides of the attach / copy / reload cut-offs, after histories that keep the table indices running (same-size frames with and without the dictionary, larger frames, failed and aborted "
                      "frames, tables overwritten, each reset kind or none), on heap, filled-malloc and static contexts; px-opt: optimal-parser levels 13-22 and explicit btopt / btultra / btultra2 on inputs dense in short "
                      "matches, pairs of static contexts over buffers pre-filled with 0x00 / 0x7F / 0xFF, heap contexts whose malloc fills blocks with 0x00 / 0x01 / 0x7F / 0x80 / 0xA5 / 0xFF, price / match / frequency tables "
-                     "overwritten between frames, and prior frames that reached deeper into the price table; distinct = distinct op lines",
+                     "overwritten between frames, and prior frames that reached deeper into the price table; endroom: flush / exactly filled blocks, then >= 1 block of input with e_end (and undirected histories), roomy vs three "
+                     "piecewise output schedules (a DIFF is the known finding only if every direct compression of the caller's input met an empty internal buffer); place-pd / place-ps: the same calls with the caller's buffers at 7 / 5 relative placements "
+                     "in one arena; cstream-model: drained-buffer histories, C buffer machine vs Model/CStream.lean; window-update-model: segment sequences, ZSTD_window_update vs Model/WindowUpdate.lean; distinct = distinct op lines",
                 samples=[dict(op=lines[0], result=res[0])], variants=kinds, skipped=skipped)
 
 
 def replay(ctx, data):
-    rc, out, err = frames.run_lines(hx2() if data["op"].startswith("px ") else hx(), [data["op"]], timeout=3000)
+    if data.get("tie") == "cstream":
+        import ent_cstream
+        return ent_cstream.replay(ctx, data)
+    if data.get("tie") == "windowupd":
+        cw, mw, crc, cerr = zv.differential(hx(), "windowupd", [data["op"]], timeout=600)
+        return dict(violates=cw != mw, impl=cw, model=mw)
+    op = data["op"]
+    rc, out, err = frames.run_lines(hx2() if op.startswith("px ") else hx3() if op.startswith(("pd ", "ps ")) else hx4() if op.startswith("er ") else hx(), [op], timeout=3000)
     return dict(violates=not (out and out[0].startswith(("same", "skip"))), result=out)
